@@ -397,6 +397,25 @@ def foreign_side(ctx, blobs):
         one(0x20, {'primary': fk.pub_body}, pub, sigs.subj_key(blobs, kblob, fk.fingerprint.hex()), 'key revocation', extra=[build.subpacket(29, b'\x00')])
         one(0x30, {'primary': fk.pub_body, 'uid': uid, 'isuid': True}, pub.userids[0], sigs.subj_cert(blobs, kblob, fk.fingerprint.hex(), uid), 'cert revocation',
             extra=[build.subpacket(29, b'\x20no longer valid')])
+        # a certification over a user ATTRIBUTE of the key whose image subpacket uses a private-use encoding octet (100): the attribute is hashed
+        # as it is in the key (0xD1 || len4 || subpackets)
+        try:
+            imgdata = bytes(range(64)) * 2
+            for enc_octet in (1, 100):
+                ua = build.sub_len(1 + 16 + len(imgdata)) + b'\x01' + b'\x10\x00\x01' + bytes([enc_octet]) + bytes(12) + imgdata
+                t[0] += 1
+                cert, hin = build.sig_packet(fk, 0x13, 'sha256', [], [], build.subject_octets(0x13, primary=fk.pub_body, uid=ua, isuid=False), created=t[0])
+                kb2 = kblob + build.pkt(17, ua) + cert
+                with warnings.catch_warnings():
+                    warnings.simplefilter('ignore')
+                    pub2 = pgpy.PGPKey.from_blob(kb2)[0]
+                    uao = pub2.userattributes[0]
+                    so = next(x for x in uao.__sig__)
+                    res = sigs.verify_outcome(pub2, uao, so)
+                ev.append({'k': 'foreign', 'sig': blobs.add(cert), 'subj': sigs.subj_cert(blobs, kb2, fk.fingerprint.hex(), ua), 'signed_over': blobs.add(hin),
+                           'clause': 'C02.indep-signer', 'label': '%s self-certification of a user attribute, image encoding %d' % (kind, enc_octet), 'accepted': True, 'result': res})
+        except Exception as ex:
+            ctx.note('user attribute certification (%s): %s' % (kind, repr(ex)[:100]))
         # the self-signatures built into the foreign key itself: the whole key must verify under PGPy
         res = sigs.verify_outcome(pub, pub, None)
         ev.append({'k': 'foreign', 'sig': blobs.add(next(r for t_, b, r in build.read_packets(kblob) if t_ == 2)),
